@@ -44,7 +44,8 @@ BUILTINS = os.path.join(vlib.BIN, "builtins")
 PER_PROC = 6000
 JOBS = 12
 CAP_AT = 3
-AS_LIMIT = 12 << 30        # address-space limit of a replayer process (huge allocations fail instead of swapping)
+AS_LIMIT = 3 << 30         # address-space limit of a replayer process: huge allocations fail at once
+AS_LIMIT_DEEP = 4 << 30    # ... for the deep-program cases (10^7 frames need ~0.6 GiB)
 
 
 def sha(s, n=10):
@@ -96,13 +97,13 @@ def write_table(table, path):
 
 # ----------------------------------------------------------------------------- replay with crash sites
 
-def replay_robust(cases, work, name, env_extra=None, timeout_ms=4000, per_proc=PER_PROC):
+def replay_robust(cases, work, name, env_extra=None, timeout_ms=4000, per_proc=PER_PROC, as_limit=AS_LIMIT):
     """vlib.replay through the `robust` binary, in batches so that no process sees more than `per_proc`
     cases; joins the panic sites recorded by the binary into the verdicts of crashed processes."""
     out = []
     batch = per_proc * JOBS
     old = resource.getrlimit(resource.RLIMIT_AS)
-    resource.setrlimit(resource.RLIMIT_AS, (AS_LIMIT, old[1]))
+    resource.setrlimit(resource.RLIMIT_AS, (as_limit, old[1]))
     try:
         for k in range(0, len(cases), batch):
             nm = f"{name}{k // batch}"
@@ -121,21 +122,62 @@ def replay_robust(cases, work, name, env_extra=None, timeout_ms=4000, per_proc=P
                         except Exception:
                             continue
                         info.setdefault(o["panicinfo"], f"{o['loc']}: {o['msg']}")
-            for v in vs:
-                if not v["pass"] and v["why"].startswith("process crash") and v["id"] in info:
-                    v["why"] += " after panic at " + info[v["id"]]
+            todo = []
+            for c, v in zip(cases[k:k + batch], vs):
+                if not v["pass"] and v["why"].startswith("process crash"):
+                    if v["id"] in info:
+                        v["why"] += " after panic at " + info[v["id"]]
+                    else:
+                        todo.append((c, v))
+            if todo:
+                from concurrent.futures import ThreadPoolExecutor
+                env = dict(os.environ)
+                env.pop("STEEL_JIT", None)
+                env.update(env_extra or {})
+                with ThreadPoolExecutor(max_workers=JOBS) as ex:
+                    for (c, v), msg in zip(todo, ex.map(lambda cv: diagnose(cv[0], work, env, timeout_ms), todo)):
+                        v["why"] += ": " + msg
             out += vs
     finally:
         resource.setrlimit(resource.RLIMIT_AS, old)
     return out
 
 
+def diagnose(case, work, env, timeout_ms):
+    """A process that died without a recorded panic site: run the case alone with stderr captured and
+    return what the runtime said (native stack overflow / failed allocation / ...)."""
+    d = os.path.join(work, "diag")
+    os.makedirs(d, exist_ok=True)
+    cid = sha(case["id"], 16)
+    cpath, opath = os.path.join(d, cid + ".case.ndjson"), os.path.join(d, cid + ".out.ndjson")
+    with open(cpath, "w") as f:
+        f.write(json.dumps({k: case[k] for k in ("id", "fresh", "tag", "steps")}) + "\n")
+    if os.path.exists(opath):
+        os.remove(opath)
+    try:
+        p = subprocess.run([os.path.join(vlib.BIN, "robust"), cpath, opath, "--timeout-ms", str(timeout_ms)],
+                           env=env, stdin=subprocess.DEVNULL, stdout=subprocess.DEVNULL, stderr=subprocess.PIPE,
+                           timeout=timeout_ms / 1000 + 30)
+    except subprocess.TimeoutExpired:
+        return "not reproduced alone (timeout)"
+    err = p.stderr.decode("utf-8", "replace")
+    if p.returncode == 0:
+        return "not reproduced alone"
+    for pat in (r"thread '[^']*' \(?\d*\)? ?has overflowed its stack", r"has overflowed its stack",
+                r"memory allocation of \d+ bytes failed", r"fatal runtime error: [^\n]*"):
+        m = re.search(pat, err)
+        if m:
+            return re.sub(r"thread '[^']*'( \(\d+\))? ", "", m.group(0))
+    lines = [l for l in err.splitlines() if l.strip()]
+    return (lines[-1][:160] if lines else f"no message (rc={p.returncode})")
+
+
 def is_resource(case, v):
-    """D-HUGE: timeout / allocation abort (no panic site) / OOM kill of a call with a huge argument."""
+    """D-HUGE: timeout / failed allocation / OOM kill of a call with a huge argument or a huge program."""
     if not case.get("huge") or v["pass"]:
         return False
     w = v["why"]
-    return w == "process hang" or w in ("process crash(rc=-6)", "process crash(rc=-9)")
+    return w == "process hang" or w.startswith("process crash(rc=-9)") or "memory allocation of" in w
 
 
 def crashy(v):
@@ -213,7 +255,7 @@ def deep_case(c, proto):
         steps[-1]["val"] = c["val"]
     steps.append({"src": proto["probe"], "class": "ok", "emit": c["probe"]})
     return {"id": f"d-{c['fam']}-{c['depth']}", "fresh": True, "tag": f"deep|{c['fam']}|{c['depth']}", "steps": steps,
-            "depth": c["depth"]}
+            "depth": c["depth"], "huge": c["huge"]}
 
 
 # ----------------------------------------------------------------------------- the check
@@ -270,24 +312,8 @@ def selftest(work, table_path, proto_case):
         raise vlib.ToolError("self-test: a process abort was not joined with its panic site: " + vs[0]["why"])
 
 
-def run(tier, seed):
-    work = os.path.join(vlib.WORK, PROP)
-    os.makedirs(work, exist_ok=True)
-    # the replayer inherits stdin: reads from the default input port see end-of-file
-    devnull = os.open(os.devnull, os.O_RDONLY)
-    os.dup2(devnull, 0)
-    r = vlib.Result(PROP, tier, seed)
-    rnd = random.Random(seed)
-    quick = tier == "quick"
+def part_stages(r, work, table_path, quick, rnd, seed):
     nojit = {"STEEL_JIT": "false"}
-
-    table, stats = dump_table(work)
-    table_path = os.path.join(work, "table.ndjson")
-    write_table(table, table_path)
-    r.notes.append("builtin table: " + json.dumps(stats))
-
-    # ---------------------------------------------------------------- (2) stages: first, it also
-    # provides the self-test
     res = tlc("MC_Robust_stages.cfg", work, table_path, workers=4, timeout=300)
     r.add_tlc(res)
     proto = next(c for c in res["cases"] if c["k"] == "proto")
@@ -298,15 +324,15 @@ def run(tier, seed):
     for env, nm in ((None, "c07s"), (nojit, "c07sn")):
         cs = [dict(c, id=c["id"] + ("-nojit" if env else ""), tag=c["tag"] + ("|nojit" if env else "")) for c in scases]
         account(r, cs, replay_robust(cs, work, nm, env_extra=env, timeout_ms=10000), "stages")
-    # residue: every run-time failing unit repeated on one engine
-    rep = [c for c in srecs if c["st"] == "run" and c["stage"] != "rt-assert"]
+    # residue: every run-time failing unit repeated on one engine, depth probe after each
+    rep = sorted((c for c in srecs if c["st"] == "run" and c["stage"] != "rt-assert"), key=lambda c: (c["ctx"], c["stage"]))
     if quick:
-        rep = rnd.sample(sorted(rep, key=lambda c: (c["ctx"], c["stage"])), 40)
+        rep = rnd.sample(rep, 36)
     rcases = [repeat_case(c, proto, 200) for c in rep]
-    account(r, rcases, replay_robust(rcases, work, "c07r", timeout_ms=20000), "repeat")
+    account(r, rcases, replay_robust(rcases, work, "c07r", timeout_ms=30000), "repeat")
     # histories
     sim = tlc("MC_Robust_inter.cfg", work, table_path, workers=1, timeout=300,
-              simulate=f"num={60 if quick else 600}", seed=seed)
+              simulate=f"num={60 if quick else 1000}", seed=seed)
     proto_i = next(c for c in sim["cases"] if c["k"] == "proto")
     icases, seen = [], set()
     for i, c in enumerate(c for c in sim["cases"] if c["k"] == "inter"):
@@ -314,24 +340,34 @@ def run(tier, seed):
         if ic["id"] not in seen:
             seen.add(ic["id"])
             icases.append(ic)
+    r.cov["transitions"] += sum(len(c["steps"]) // 2 for c in icases)
     for env, nm in ((None, "c07i"), (nojit, "c07in")):
         cs = [dict(c, id=c["id"] + ("-nojit" if env else ""), tag=c["tag"] + ("|nojit" if env else "")) for c in icases]
         account(r, cs, replay_robust(cs, work, nm, env_extra=env, timeout_ms=10000), "inter")
 
-    # ---------------------------------------------------------------- (3) deep programs
+
+def part_deep(r, work, table_path, quick):
+    nojit = {"STEEL_JIT": "false"}
     res = tlc("MC_Robust_deep_quick.cfg" if quick else "MC_Robust_deep_thorough.cfg", work, table_path, workers=2, timeout=300)
     r.add_tlc(res)
     proto_d = next(c for c in res["cases"] if c["k"] == "proto")
     dcases = [deep_case(c, proto_d) for c in res["cases"] if c["k"] == "deep"]
-    dcases.sort(key=lambda c: (-c["depth"], c["id"]))
+    dcases.sort(key=lambda c: (-c["depth"], c["id"]))       # the slow ones first
     for env, nm in ((None, "c07d"), (nojit, "c07dn")):
-        cs = [dict(c, id=c["id"] + ("-nojit" if env else ""), tag=c["tag"] + ("|nojit" if env else "")) for c in dcases]
-        account(r, cs, replay_robust(cs, work, nm, env_extra=env, timeout_ms=60000 if quick else 240000), "deep")
+        # parsing / expansion / compilation do not depend on the JIT: the quick tier runs only the
+        # recursion families a second time
+        sel = [c for c in dcases if not (env and quick and "|rec-" not in c["tag"])]
+        cs = [dict(c, id=c["id"] + ("-nojit" if env else ""), tag=c["tag"] + ("|nojit" if env else "")) for c in sel]
+        account(r, cs, replay_robust(cs, work, nm, env_extra=env, timeout_ms=60000 if quick else 120000,
+                                     as_limit=AS_LIMIT_DEEP), "deep")
 
-    # ---------------------------------------------------------------- (1) matrix, round 1: canaries
+
+def part_matrix(r, work, table, table_path, quick, rnd):
+    nojit = {"STEEL_JIT": "false"}
+    # round 1: canaries
     res = tlc("MC_Robust_canary.cfg", work, table_path)
     r.add_tlc(res)
-    c1, proto_m = matrix_cases(res["cases"])
+    c1, _ = matrix_cases(res["cases"])
     v1 = account(r, c1, replay_robust(c1, work, "c07m1"), "matrix round 1")
     # crash budget: a builtin whose canaries crash / hang >= CAP_AT times, every time attributed to a
     # known finding, is capped in round 2
@@ -347,21 +383,39 @@ def run(tier, seed):
     write_table(table, table_path)
     if capped:
         r.notes.append(f"crash budget: {len(capped)} builtins capped to sampled tuples in round 2 "
-                       f"(>= {CAP_AT} canary crashes, all known findings): " + " ".join(capped))
-
-    # ---------------------------------------------------------------- (1) matrix, round 2
+                       f"(>= {CAP_AT} canary crashes, all of them known findings): " + " ".join(capped))
+    # round 2
     res = tlc("MC_Robust_matrix_quick.cfg" if quick else "MC_Robust_matrix_thorough.cfg", work, table_path, timeout=1200)
     r.add_tlc(res)
     c2, _ = matrix_cases(res["cases"])
     have = {c["id"] for c in c1}
     c2 = [c for c in c2 if c["id"] not in have]
-    v2 = account(r, c2, replay_robust(c2, work, "c07m2"), "matrix round 2")
+    account(r, c2, replay_robust(c2, work, "c07m2"), "matrix round 2")
     # JIT off: a seeded sample of both rounds
     pool = c1 + c2
-    sample = rnd.sample(pool, min(len(pool), 12000 if quick else 120000))
+    sample = rnd.sample(pool, min(len(pool), 12000 if quick else 150000))
     sample.sort(key=lambda c: c["id"])
     cs = [dict(c, id=c["id"] + "-nojit", tag=c["tag"] + "|nojit") for c in sample]
     account(r, cs, replay_robust(cs, work, "c07mn", env_extra=nojit), "matrix, JIT off")
+
+
+def run(tier, seed):
+    work = os.path.join(vlib.WORK, PROP)
+    os.makedirs(work, exist_ok=True)
+    # the replayer inherits stdin: reads from the default input port see end-of-file
+    os.dup2(os.open(os.devnull, os.O_RDONLY), 0)
+    r = vlib.Result(PROP, tier, seed)
+    rnd = random.Random(seed)
+    quick = tier == "quick"
+
+    table, stats = dump_table(work)
+    table_path = os.path.join(work, "table.ndjson")
+    write_table(table, table_path)
+    r.notes.append("builtin table: " + json.dumps(stats))
+
+    part_stages(r, work, table_path, quick, rnd, seed)      # (2), and the self-test
+    part_deep(r, work, table_path, quick)                   # (3)
+    part_matrix(r, work, table, table_path, quick, rnd)     # (1)
 
     r.cov["rule"] = ("matrix: one case per (builtin, argument-kind tuple); stages: one per (context, stage) and JIT mode; "
                      "inter: distinct histories; deep: one per (family, depth) and JIT mode; every case compares the "
@@ -370,7 +424,7 @@ def run(tier, seed):
     r.assumptions += [
         "matrix: Kind^arity is exhaustive only over the tier sets of the cfg (T1/T2/T3); larger products are seed-sampled",
         "builtins with effects outside the engine are excluded by the explicit Deny list of Robust.tla (printed in notes)",
-        "stdin of the replayer is /dev/null, its address space is limited to 12 GiB",
+        "stdin of the replayer is /dev/null, its address space is limited to 3 GiB (4 GiB for deep programs)",
         "memory corruption is observable only through its symptoms (crash, wrong probe value)",
     ]
     return r.finish()
